@@ -24,6 +24,10 @@ def encodings(rng):
         "1-d arrays": lambda c, t: tuple(np.array([v]) for v in pick([4, 9, 11], c)),
         "lists": lambda c, t: tuple([v] for v in pick(["x", "y"], c)),
         "negative ints": lambda c, t: pick([-1, -5, 0], c),
+        # the label and the prediction arrive in different numeric kinds (an int next to a float, uint8 next to int64, bool next to int)
+        "int vs float": lambda c, t: (lambda a, b: (int(a), float(b)))(*pick([1, 2, 3], c)),
+        "uint8 vs int64 array": lambda c, t: (lambda a, b: (np.uint8(a), np.array([b], dtype=np.int64)))(*pick([0, 1, 2], c)),
+        "bool vs int": lambda c, t: (lambda a, b: (bool(a), int(b)))(*pick([0, 1], c)),
         # one-element categorical Series (a row of a categorical column); the two Series need not share their category lists
         "categorical series": lambda c, t: (lambda a, b: (pd.Series([a], dtype="category"), pd.Series(pd.Categorical([b], categories=["z", "y", "x", "w"]))))(*pick(["w", "x", "y", "z"], c)),
         "series / index objects": lambda c, t: (lambda a, b: (pd.Series([a]), pd.Index([b])))(*pick([3, 5, 8], c)),
